@@ -471,6 +471,16 @@ def deref(fl, e, at, depth=4):
             defs = [d for d, sfx in fl.rd(e.id, at) if not sfx]
         except Exception:
             break
+        if len(defs) == 1 and defs[0].kind == "unpack" and isinstance(getattr(defs[0], "value", None), (ast.Tuple, ast.List)):
+            # `a, b = x, y` is two plain assignments
+            d = defs[0]
+            idx = tuple(getattr(d, "index", ()) or ())
+            elts = d.value.elts
+            if len(idx) == 1 and isinstance(idx[0], int) and 0 <= idx[0] < len(elts) and not any(isinstance(x, ast.Starred) for x in elts):
+                e, at = elts[idx[0]], d.at
+                depth -= 1
+                continue
+            break
         if len(defs) != 1 or defs[0].kind != "assign" or not isinstance(getattr(defs[0], "value", None), ast.AST):
             break
         d = defs[0]
